@@ -145,6 +145,28 @@ def peel(rule):
     return r, chain
 
 
+def expected_shifts(rule):
+    """Independent re-derivation of the shifts of a (possibly derived) rule."""
+    from comb_spec_searcher.strategies.constructor import CartesianProduct, DisjointUnion
+    from comb_spec_searcher.strategies.rule import EquivalencePathRule, EquivalenceRule, ReverseRule
+
+    if isinstance(rule, EquivalencePathRule):
+        return (0,)
+    if isinstance(rule, ReverseRule):
+        orig = expected_shifts(rule.original_rule)
+        idx = rule.idx
+        p = -orig[idx]
+        return (p,) + tuple(s + p for i, s in enumerate(orig) if i != idx)
+    if isinstance(rule, EquivalenceRule):
+        if isinstance(rule.original_rule, ReverseRule):
+            return expected_shifts(rule.original_rule)[:1] if len(rule.original_rule.children) == 1 else (0,)
+        return (0,)
+    mins = [c.minimum_size_of_object() for c in rule.children]
+    if type(rule.strategy).__name__ in ("Peel", "Factor", "Shuffle"):  # the products of U1
+        return tuple(sum(mins) - m for m in mins)
+    return tuple(0 for _ in mins)
+
+
 def check_structure(ctx, spec, start, packs, part="struct", tier="quick"):
     from comb_spec_searcher.strategies.rule import (
         EquivalencePathRule,
@@ -254,11 +276,20 @@ def check_structure(ctx, spec, start, packs, part="struct", tier="quick"):
     keys = []
     for cls, rule in rules_dict.items():
         try:
-            sh = tuple(rule.shifts())
+            declared = tuple(rule.shifts())
         except Exception as e:
             ctx.fail(part + "-shifts", f"rule.shifts() raised {describe_exc(e)} for\n{rule}", part + "-shifts/raises")
             continue
-        ctx.check(len(sh) == len(rule.children), part + "-shifts", f"{len(sh)} shifts for {len(rule.children)} children: {rule}")
+        ctx.check(len(declared) == len(rule.children), part + "-shifts", f"{len(declared)} shifts for {len(rule.children)} children: {rule}")
+        # productivity is judged with shifts re-derived from the minimum sizes of the
+        # classes, not with the ones the library declares (those are C10's subject): a
+        # circular rule set accepted because of a wrong declared shift is still circular
+        try:
+            sh = tuple(expected_shifts(rule))
+        except Exception:
+            sh = declared
+        if sh != declared:
+            ctx.label("declared-shifts-differ")
         if len(sh) == len(rule.children):
             keys.append((lab(cls), tuple(lab(c) for c in rule.children), sh))
     with_rule = {k[0] for k in keys}
